@@ -22,22 +22,25 @@ ASSUMPTIONS = ["XML text-level serialisation (escaping, attribute quoting, prett
 
 # ------------------------------------------------------------------ implementation side
 
-def mk_comp(c):
+def mk_comp(c, share=False):
     from mingus.containers import Composition
     from mingus.containers.instrument import MidiInstrument, Instrument
     title, author, subtitle, tracks = c
     comp = Composition()
     comp.set_title(title, subtitle)
     comp.set_author(author)
+    made = {}        # share: tracks that name the same instrument get THE SAME instrument object (one player, several parts)
     for t in tracks:
         tr = mk_track([t[0], None, t[2]])
         if t[1] is not None:
             kind, name, nr = t[1]
-            i = MidiInstrument() if kind == "midi" else Instrument()
-            i.name = name
-            if kind == "midi":
-                i.instrument_nr = nr
-            tr.instrument = i
+            if not share or (kind, name, nr) not in made:
+                i = MidiInstrument() if kind == "midi" else Instrument()
+                i.name = name
+                if kind == "midi":
+                    i.instrument_nr = nr
+                made[(kind, name, nr)] = i
+            tr.instrument = made[(kind, name, nr)]
         comp.add_track(tr)
     return comp
 
@@ -45,10 +48,10 @@ def ly_track(t):
     from mingus.extra import lilypond
     return lilypond.from_Track(mk_track([t[0], None, t[2]]))
 
-def xml_tree(c):
+def xml_tree(c, share=False):
     import xml.etree.ElementTree as ET
     from mingus.extra import musicxml
-    text = musicxml.from_Composition(mk_comp(c))
+    text = musicxml.from_Composition(mk_comp(c, share))
     root = ET.fromstring(text)
     ids = {}
     def rename(v, prefix):
@@ -83,6 +86,7 @@ IMPL = {
     "ly.track": ly_track,
     "ly.composition": lambda c: impl_ly("from_Composition")(mk_comp(c)),
     "xml.composition": xml_tree,
+    "xml.composition_shared": lambda c: xml_tree(c, True),
 }
 
 def has_model(c):
@@ -448,6 +452,16 @@ def cases(tier, rng):
     t8, q5 = 12.0, 5.0
     for seq in ([t8, t8, t8], [4, t8, t8, t8, 4], [t8, t8, t8, q5, q5, q5, q5, q5], [t8, 4, t8], [4], [q5]):
         out.append(Case("ly.bar", [["C", 4, 4, [[v, [["C", 4, 1, 64]]] for v in seq]], True, True], tag="ly:tuplets"))
+    # several tracks on one instrument
+    one = [["C", 4, 4, [[4, [["C", 4, 1, 64]]]]]]
+    out.append(Case("xml.composition", [["t", "a", "s", [["v1", ["midi", "Violin", 40], one], ["v2", ["midi", "Violin", 40], one],
+                                                          ["p", ["plain", "Piano", 0], one], ["v3", ["midi", "Violin", 40], []],
+                                                          ["p2", ["plain", "Piano", 0], one]]]], tag="xml:same-instrument"))
+    # ... and the same with ONE instrument object assigned to several tracks (instrument ids are object ids: not modelled)
+    out.append(Case("xml.composition_shared", [out[-1]["args"][0]], tag="xml:shared-instrument-object", model=False))
+    # a double quote inside the header fields (not readable as LilyPond any more, but the text must still be carried)
+    for t in ('Die "Forelle"', 'a "b', '"'):
+        out.append(Case("ly.composition", [[t, "me", t, [["n", None, one]]]], tag="ly:titles-quoted", kind=("quoted",)))
     for t in TITLES:
         out.append(Case("xml.composition", [[t, t, t, [[t, ["midi", t, 5], [["C", 4, 4, [[4, [["C", 4, 1, 64]]]]]]], [t, ["plain", t, 0], []]]]], tag="xml:titles"))
         if '"' not in t:
@@ -517,6 +531,14 @@ def oracle(c, obs):
             if pos != len(toks):
                 return "text after the track"
             return check_track(got, a[0][2])
+        elif fn == "ly.composition" and c.get("kind") == ("quoted",):
+            comp = a[0]
+            if isinstance(obs, Err) or not isinstance(obs, str):
+                return "raised"
+            head = obs[obs.find("\\header"):obs.find("}", obs.find("\\header")) + 1] if "\\header" in obs else ""
+            for what, text in (("title", comp[0]), ("composer", comp[1]), ("opus", comp[2])):
+                if text and (what + ' = "' + text + '"') not in head:
+                    return "the header does not carry the %s %r as written" % (what, text)
         elif fn == "ly.composition":
             comp = a[0]
             got = ly_read_composition(obs)
@@ -528,7 +550,7 @@ def oracle(c, obs):
                 r = check_track(g, t[2])
                 if r:
                     return "track %d: %s" % (i, r)
-        elif fn == "xml.composition":
+        elif fn in ("xml.composition", "xml.composition_shared"):
             return check_xml(obs[0], obs[1], a[0])
     except LyError as e:
         return "the LilyPond text does not parse in the subset: %s" % e
